@@ -61,7 +61,7 @@ func VerifyFunc(p *Program, ss *Sorts, reg *SpecReg, fc *FuncContract) (res *Fun
 		entryVars: map[string]Term{}, entryGhost: map[string]Term{}, specParam: map[string]types.Object{},
 		modset: map[string]bool{}, loopOrd: map[ast.Stmt]string{}, litOrd: map[*ast.FuncLit]string{},
 		notes: map[string]int{}, oblSeq: map[string]int{}, maxPath: 4000,
-		ifaceLink: map[string]Term{}, boxed: map[string]Term{}, assumedUsed: map[string]bool{}, calleesUsed: map[string]bool{}}
+		ifaceLink: map[string]Term{}, boxed: map[string]Term{}, boxedFrom: map[string]boxInfo{}, assumedUsed: map[string]bool{}, calleesUsed: map[string]bool{}}
 	fv.curFunc = p.funcDisplayName(fc)
 	if fc.litNode != nil || strings.Contains(fc.Name, "$lit") {
 		fv.curFunc = strings.Replace(fv.curFunc, "$lit", "/lit", 1)
